@@ -16,6 +16,7 @@ import (
 	"encoding/json"
 	"fmt"
 	"path/filepath"
+	"reflect"
 	"sort"
 	"strings"
 	"sync"
@@ -38,6 +39,7 @@ import (
 	"github.com/nspcc-dev/neo-go/pkg/smartcontract/trigger"
 	"github.com/nspcc-dev/neo-go/pkg/util"
 	"github.com/nspcc-dev/neo-go/pkg/vm/emit"
+	"github.com/nspcc-dev/neo-go/pkg/vm/opcode"
 	"github.com/nspcc-dev/neo-go/pkg/vm/stackitem"
 )
 
@@ -47,6 +49,8 @@ func init() { register("c01", runC01) }
 
 const c01SrcStore = `package vstore
 import (
+	"github.com/nspcc-dev/neo-go/pkg/interop"
+	"github.com/nspcc-dev/neo-go/pkg/interop/contract"
 	"github.com/nspcc-dev/neo-go/pkg/interop/iterator"
 	"github.com/nspcc-dev/neo-go/pkg/interop/native/management"
 	"github.com/nspcc-dev/neo-go/pkg/interop/runtime"
@@ -86,6 +90,8 @@ func FillFail(seed, n int) {
 	Fill(seed, n)
 	panic("fill refused")
 }
+func Take(x any) int { return VERSION }
+func Relay(h interop.Hash160, x any) int { return contract.Call(h, "take", contract.ReadOnly, x).(int) }
 func Update(nef, manif []byte) { management.Update(nef, manif) }
 func Destroy() { management.Destroy() }
 `
@@ -201,12 +207,176 @@ func (c *c05Chain) c01BuildTx(op c05Op) (*transaction.Transaction, error) {
 		}
 		roles := []noderoles.Role{noderoles.StateValidator, noderoles.Oracle, noderoles.P2PNotary, noderoles.NeoFSAlphabet}
 		return c.mkTx(c.desH, "designateAsRole", []any{int64(roles[int(op.A)%len(roles)]), ks}, c05FeeSimple, nil, c05AValidators, c05ACommittee)
+	case "wl": // Policy.setWhitelistFeeContract(contract of To, "put", 2, fee A) (Faun)
+		h, _, err := target()
+		if err != nil {
+			return nil, err
+		}
+		return c.mkTx(c.polH, "setWhitelistFeeContract", []any{h, "put", int64(2), op.A}, c05FeeSimple, nil, c05AValidators, c05ACommittee)
+	case "wlrm":
+		h, _, err := target()
+		if err != nil {
+			return nil, err
+		}
+		return c.mkTx(c.polH, "removeWhitelistFeeContract", []any{h, "put", int64(2)}, c05FeeSimple, nil, c05AValidators, c05ACommittee)
+	case "xarg": // a call whose argument is unusual but legal for the VM (variant N), directly (K=0) or relayed by the contract (K=1)
+		h, _, err := target()
+		if err != nil {
+			return nil, err
+		}
+		return c.mkTx(util.Uint160{}, "", nil, 40_0000_0000, c.c01ArgScript(h, op.N, int(op.A), op.K != 0), op.F)
 	case "setvub":
 		return c.mkTx(c.polH, "setMaxValidUntilBlockIncrement", []any{op.A}, c05FeeSimple, nil, c05AValidators, c05ACommittee)
 	case "setms":
 		return c.mkTx(c.polH, "setMillisecondsPerBlock", []any{op.A}, c05FeeSimple, nil, c05AValidators, c05ACommittee)
 	}
 	return nil, nil
+}
+
+// c01ArgScript: build one unusual argument x on the stack, then System.Contract.Call h.take(x) — or
+// h.relay(h, x), which passes x on through another System.Contract.Call — and drop the result.
+//  0 iterator from NeoToken.getAllCandidates   1 iterator from Management.getContractHashes   2 Pointer
+//  3 array containing itself   4 map containing itself   5 array nested `size` deep (default 150)
+//  6 Buffer of stackitem.MaxSize - size bytes (its serialisation is just under / over MaxSize)   7 small Buffer
+//  8 struct holding an iterator, a pointer and a self-referencing array
+func (c *c05Chain) c01ArgScript(h util.Uint160, variant, size int, relay bool) []byte {
+	w := io.NewBufBinWriter()
+	b := w.BinWriter
+	selfArr := func() { emit.Opcodes(b, opcode.NEWARRAY0, opcode.DUP, opcode.DUP, opcode.APPEND) }
+	switch variant % 9 {
+	case 0:
+		emit.AppCall(b, c.neoH, "getAllCandidates", callflag.ReadOnly)
+	case 1:
+		emit.AppCall(b, c.mgmtH, "getContractHashes", callflag.ReadOnly)
+	case 2:
+		emit.Instruction(b, opcode.PUSHA, []byte{0, 0, 0, 0})
+	case 3:
+		selfArr()
+	case 4:
+		emit.Opcodes(b, opcode.NEWMAP, opcode.DUP, opcode.PUSH1, opcode.OVER, opcode.SETITEM)
+	case 5:
+		d := size
+		if d <= 0 || d > 400 {
+			d = 150
+		}
+		emit.Opcodes(b, opcode.NEWARRAY0)
+		for i := 0; i < d; i++ {
+			emit.Opcodes(b, opcode.PUSH1, opcode.PACK)
+		}
+	case 6:
+		n := stackitem.MaxSize - size
+		if n < 1 || n > stackitem.MaxSize {
+			n = stackitem.MaxSize
+		}
+		emit.Int(b, int64(n))
+		emit.Opcodes(b, opcode.NEWBUFFER)
+	case 7:
+		emit.Opcodes(b, opcode.PUSH8, opcode.NEWBUFFER)
+	case 8:
+		emit.AppCall(b, c.neoH, "getAllCandidates", callflag.ReadOnly)
+		emit.Instruction(b, opcode.PUSHA, []byte{0, 0, 0, 0})
+		selfArr()
+		emit.Opcodes(b, opcode.PUSH3, opcode.PACKSTRUCT)
+	}
+	if relay {
+		emit.Bytes(b, h.BytesBE())
+		emit.Opcodes(b, opcode.PUSH2, opcode.PACK)
+		emit.AppCallNoArgs(b, h, "relay", callflag.All)
+	} else {
+		emit.Opcodes(b, opcode.PUSH1, opcode.PACK)
+		emit.AppCallNoArgs(b, h, "take", callflag.All)
+	}
+	emit.Opcodes(b, opcode.DROP)
+	return w.Bytes()
+}
+
+// ---------- node-local options, enumerated from the configuration types ----------
+
+// c01ProtocolParams: the fields of config.Blockchain (incl. the embedded ProtocolConfiguration / Ledger) that are
+// parameters of the PROTOCOL or of the database format and therefore must be EQUAL on all replicas of one chain.
+var c01ProtocolParams = map[string]string{
+	"Magic": "network id", "InitialGASSupply": "genesis", "MaxBlockSize": "block validity", "MaxBlockSystemFee": "block validity",
+	"MaxTraceableBlocks": "contract-visible ledger window", "MaxTransactionsPerBlock": "block validity",
+	"MaxValidUntilBlockIncrement": "transaction validity", "P2PSigExtensions": "native Notary / attributes",
+	"P2PStateExchangeExtensions": "state sync protocol", "NeoFSStateSyncExtensions": "state sync protocol",
+	"ReservedAttributes": "transaction validity", "StateRootInHeader": "block format", "StateSyncInterval": "state sync protocol",
+	"TimePerBlock": "genesis / Policy", "MaxTimePerBlock": "consensus timing", "ValidatorsCount": "governance",
+}
+
+// c01NotToggled: node-local fields the differential does not vary, with the reason.
+var c01NotToggled = map[string]string{
+	"KeepOnlyLatestState": "varied by the base replicas", "RemoveUntraceableBlocks": "varied by the base replicas",
+	"OIDBatchSize": "NeoFS fetcher (needs a NeoFS network)", "DownloaderWorkersCount": "NeoFS fetcher", "BQueueSize": "NeoFS fetcher",
+	"Enabled": "NeoFS fetcher", "SkipIndexFilesSearch": "NeoFS fetcher", "IndexFileSize": "NeoFS fetcher", "KeySizeThreshold": "NeoFS fetcher",
+	"Index": "TrustedHeader (state sync start point)",
+}
+
+type c01Option struct {
+	Name string
+	Alt  int64 // the value the toggling replica uses (bool: 1 = the opposite of the source's false)
+}
+
+// c01NodeLocalOptions reflects over config.Blockchain and returns every bool / integer field that is neither a
+// protocol parameter nor excluded: each is toggled singly on one replica and in random combinations on others.
+func c01NodeLocalOptions() (opts []c01Option, skipped []string) {
+	alt := map[string]int64{"GarbageCollectionPeriod": 3, "MemPoolSize": 9, "P2PNotaryRequestPayloadPoolSize": 3}
+	seen := map[string]bool{}
+	var walk func(t reflect.Type)
+	walk = func(t reflect.Type) {
+		for i := 0; i < t.NumField(); i++ {
+			f := t.Field(i)
+			switch f.Type.Kind() {
+			case reflect.Struct:
+				walk(f.Type)
+			case reflect.Bool, reflect.Int, reflect.Int32, reflect.Int64, reflect.Uint16, reflect.Uint32, reflect.Uint64:
+				if seen[f.Name] {
+					continue
+				}
+				seen[f.Name] = true
+				if _, ok := c01ProtocolParams[f.Name]; ok {
+					continue
+				}
+				if why, ok := c01NotToggled[f.Name]; ok {
+					skipped = append(skipped, f.Name+": "+why)
+					continue
+				}
+				a, ok := alt[f.Name]
+				if !ok {
+					if f.Type.Kind() != reflect.Bool {
+						a = 5 // an integer option this harness has never seen: a small value
+					} else {
+						a = 1
+					}
+				}
+				opts = append(opts, c01Option{f.Name, a})
+			}
+		}
+	}
+	walk(reflect.TypeOf(config.Blockchain{}))
+	sort.Slice(opts, func(i, j int) bool { return opts[i].Name < opts[j].Name })
+	sort.Strings(skipped)
+	return
+}
+
+// c01ApplyOptions sets the named fields (bool: value != 0 means "the opposite of what the hook left").
+func c01ApplyOptions(c *config.Blockchain, opts map[string]int64) {
+	v := reflect.ValueOf(c).Elem()
+	for name, val := range opts {
+		f := v.FieldByName(name)
+		if !f.IsValid() || !f.CanSet() {
+			continue
+		}
+		switch f.Kind() {
+		case reflect.Bool:
+			if val != 0 {
+				f.SetBool(!f.Bool())
+			}
+		case reflect.Int, reflect.Int32, reflect.Int64:
+			f.SetInt(val)
+		case reflect.Uint16, reflect.Uint32, reflect.Uint64:
+			f.SetUint(uint64(val))
+		}
+	}
 }
 
 // ---------- observation of a node at its tip ----------
@@ -228,6 +398,8 @@ type c01Obs struct {
 	QUnclaimed string `json:"q_unclaimed"` // NEO.unclaimedGas of every universe account (reads the gas-per-vote cache)
 	QAccounts  string `json:"q_accounts"`  // NEO.getAccountState of every universe account
 	QNotary    string `json:"q_notary"`    // Notary balanceOf / expirationOf / getMaxNotValidBeforeDelta
+	QWhitelist string `json:"q_whitelist"` // Policy.getWhitelistFeeContracts (Faun): the cached whitelist with its fees
+	Whitelist  []int64 `json:"-"`          // (contract account, fee) pairs of the cached whitelist, for the model
 	Enroll    string   `json:"enrollments"`
 	Natives   string   `json:"natives"`
 	Contracts string   `json:"contracts"`
@@ -428,6 +600,11 @@ func c01Queries(bc *core.Blockchain, u *c05Universe, o *c01Obs, bad func(string,
 		call(4, notH, "expirationOf", u.hashes[i])
 	}
 	call(4, notH, "getMaxNotValidBeforeDelta")
+	faun := bc.GetConfig().Hardforks[config.HFFaun.String()]
+	_, hasFaun := bc.GetConfig().Hardforks[config.HFFaun.String()]
+	if hasFaun && faun <= bc.BlockHeight()+1 {
+		call(5, polH, "getWhitelistFeeContracts")
+	}
 	ic, err := bc.GetTestVM(trigger.Application, nil, nil)
 	if err != nil {
 		bad("GetTestVM: %v", err)
@@ -445,8 +622,29 @@ func c01Queries(bc *core.Blockchain, u *c05Universe, o *c01Obs, bad func(string,
 		bad("read-only queries: %d answers for %d calls", len(items), len(groups))
 		return
 	}
-	parts := make([][][]byte, 5)
+	parts := make([][][]byte, 6)
 	for i, it := range items {
+		if groups[i] == 5 { // drain the iterator over the cached whitelist
+			if iter, ok := it.Value().(interface {
+				Next() bool
+				Value() stackitem.Item
+			}); ok {
+				for iter.Next() {
+					v := iter.Value()
+					j, _ := stackitem.ToJSONWithTypes(v)
+					parts[5] = append(parts[5], j)
+					if f, ok := v.Value().([]stackitem.Item); ok && len(f) == 4 {
+						hb, _ := f[0].TryBytes()
+						hh, _ := util.Uint160DecodeBytesBE(hb)
+						fee, _ := f[3].TryInteger()
+						if fee != nil {
+							o.Whitelist = append(o.Whitelist, int64(c01DeployerOf(u, hh)), fee.Int64())
+						}
+					}
+				}
+			}
+			continue
+		}
 		j, err := stackitem.ToJSONWithTypes(it)
 		if err != nil {
 			j = []byte(err.Error())
@@ -459,6 +657,19 @@ func c01Queries(bc *core.Blockchain, u *c05Universe, o *c01Obs, bad func(string,
 		}
 	}
 	o.QPolicy, o.QNeo, o.QUnclaimed, o.QAccounts, o.QNotary = c01Hash(parts[0]...), c01Hash(parts[1]...), c01Hash(parts[2]...), c01Hash(parts[3]...), c01Hash(parts[4]...)
+	o.QWhitelist = c01Hash(parts[5]...)
+}
+
+// c01DeployerOf: the universe account whose storage contract has the given hash (-1 = none).
+func c01DeployerOf(u *c05Universe, h util.Uint160) int {
+	for a, cc := range c01Contracts {
+		if cc.v1.Hash == h {
+			if i, ok := u.idx[a]; ok {
+				return i
+			}
+		}
+	}
+	return -1
 }
 
 var c01ContractNames = map[string]string{"-1": "Management", "-4": "Ledger", "-5": "NEO", "-6": "GAS", "-7": "Policy", "-8": "Designate", "-9": "Oracle", "-10": "Notary", "-11": "Treasury"}
@@ -585,6 +796,8 @@ type c01Replica struct {
 	Junk     bool   `json:"mempool_junk"`
 	Restarts []int  `json:"restarts"` // close + reopen after these heights
 	Seed     uint64 `json:"seed"`
+	// further node-local options by field name of config.Blockchain (see c01NodeLocalOptions): bool 1 = flipped
+	Opts map[string]int64 `json:"opts,omitempty"`
 }
 
 type c01Proto struct {
@@ -616,6 +829,10 @@ func (rp c01Replica) hook(p c01Proto) func(c *config.Blockchain) {
 		c.SkipBlockVerification = rp.SkipVer
 		c.VerifyTransactions = !rp.NoTxVer
 		c.SaveStorageBatch = rp.Batch
+		c01ApplyOptions(c, rp.Opts)
+		if c.RemoveUntraceableBlocks && c.GarbageCollectionPeriod == 0 {
+			c.GarbageCollectionPeriod = 2
+		}
 	}
 }
 
@@ -773,6 +990,19 @@ func c01RunReplica(p c01Proto, rp c01Replica, src *c05Chain, blocks []*block.Blo
 func c01RandomOp(g *c05Gen, deployed map[int]bool) c05Op {
 	r := g.r
 	a := pick(r, c05Signers)
+	mutable := func() int { // a contract that may be updated / destroyed: never the whitelist targets 13, 14
+		var l []int
+		for k := range deployed {
+			if k != 13 && k != 14 {
+				l = append(l, k)
+			}
+		}
+		sort.Ints(l)
+		if len(l) == 0 {
+			return pick(r, c05Signers[:12])
+		}
+		return pick(r, l)
+	}
 	anyDeployed := func() int {
 		var l []int
 		for k := range deployed {
@@ -806,8 +1036,16 @@ func c01RandomOp(g *c05Gen, deployed map[int]bool) c05Op {
 	case x < 76:
 		deployed[a] = true
 		return c05Op{T: "deploy", F: a}
-	case x < 84:
+	case x < 80:
 		return c05Op{T: "cput", F: a, To: anyDeployed(), N: r.intn(4), K: r.intn(6), A: int64(r.intn(400))}
+	case x < 84: // a call with an unusual but legal argument, directly or relayed through the contract
+		sz := int64(0)
+		if r.chance(60) {
+			sz = int64(r.intn(12)) // Buffer of MaxSize-sz bytes: its serialisation is just under / over MaxSize
+		} else {
+			sz = int64(r.intn(300))
+		}
+		return c05Op{T: "xarg", F: a, To: anyDeployed(), N: r.intn(9), K: r.intn(2), A: sz}
 	case x < 87:
 		return c05Op{T: "cdel", F: a, To: anyDeployed(), N: r.intn(4), K: r.intn(6)}
 	case x < 92:
@@ -816,10 +1054,12 @@ func c01RandomOp(g *c05Gen, deployed map[int]bool) c05Op {
 		return c05Op{T: "cfillfail", F: a, To: anyDeployed(), N: r.intn(4), A: int64(1 + r.intn(30))}
 	case x < 96:
 		return c05Op{T: "csweep", F: a, To: anyDeployed(), N: r.intn(4)}
+	case x < 97:
+		return c05Op{T: "cupdate", F: a, To: mutable()}
 	case x < 98:
-		return c05Op{T: "cupdate", F: a, To: anyDeployed()}
+		return c05Op{T: "cdestroy", F: a, To: mutable()}
 	default:
-		return c05Op{T: "cdestroy", F: a, To: anyDeployed()}
+		return c05Op{T: pick(r, []string{"wl", "wl", "wlrm"}), To: pick(r, []int{13, 14}), A: int64(r.intn(3)) * int64(1+r.intn(2000000))}
 	}
 }
 
@@ -842,6 +1082,19 @@ func c01Generate(r *rng, c *c05Chain, run *c05Runner, nblocks int) ([]c05Op, err
 	deployed := map[int]bool{}
 	if r.chance(80) {
 		if err := g.push(); err != nil {
+			return g.ops, err
+		}
+	}
+	if r.chance(75) { // the two contracts that are never updated or destroyed (whitelist targets)
+		for _, d := range []int{13, 14} {
+			if r.chance(80) {
+				deployed[d] = true
+				if err := emit(c05Op{T: "deploy", F: d}); err != nil {
+					return g.ops, err
+				}
+			}
+		}
+		if err := emit(c05Op{T: "blk"}); err != nil {
 			return g.ops, err
 		}
 	}
@@ -888,6 +1141,20 @@ func c01Generate(r *rng, c *c05Chain, run *c05Runner, nblocks int) ([]c05Op, err
 					return g.ops, err
 				}
 				quietUntil = (h/c.csz+1)*c.csz + r.intn(3)
+			case x >= 20 && x < 30 && (deployed[13] || deployed[14]) && in01Faun(c):
+				// the same whitelist entry is set twice with different fees, then the method is called
+				d := 13
+				if !deployed[13] || (deployed[14] && r.bool()) {
+					d = 14
+				}
+				if err := emit(c05Op{T: "wl", To: d, A: int64(r.intn(50))}); err != nil {
+					return g.ops, err
+				}
+				later = append(later, []c05Op{{T: "wl", To: d, A: int64(100000 + r.intn(3000000))}})
+				for i := 0; i < r.intn(2); i++ {
+					later = append(later, nil)
+				}
+				later = append(later, []c05Op{{T: "cput", F: pick(r, c05Signers), To: d, N: r.intn(4), K: r.intn(6), A: 9}})
 			case x < 20:
 				// a voted candidate loses its voters and unregisters (its record is dropped), registers again later and
 				// is voted again
@@ -973,6 +1240,21 @@ func c01Replicas(r *rng, nblocks int, tier string) []c01Replica {
 		c01Replica{Store: "level", Flush: "random", Restarts: some(25), GC: true, Batch: true, Seed: seed()},
 		c01Replica{Store: "mem", Flush: "every", SkipVer: true, KeepOnly: true, GC: true, Seed: seed()},
 	)
+	// every other node-local option of the configuration, singly and in a few random combinations
+	opts, _ := c01NodeLocalOptions()
+	for _, o := range opts {
+		out = append(out, c01Replica{Store: pick(r, []string{"mem", "level", "bolt"}), Flush: pick(r, []string{"never", "random", "every"}),
+			Restarts: some(6), Opts: map[string]int64{o.Name: o.Alt}, Seed: seed()})
+	}
+	for k := 0; k < 3; k++ {
+		m := map[string]int64{}
+		for _, o := range opts {
+			if r.chance(50) {
+				m[o.Name] = o.Alt
+			}
+		}
+		out = append(out, c01Replica{Store: pick(r, []string{"level", "bolt"}), Flush: "random", Restarts: some(12), GC: r.bool(), KeepOnly: r.bool(), Opts: m, Seed: seed()})
+	}
 	// restart at every height on short chains: one replica per height (a restarted node keeps its re-initialised
 	// caches, so one replica restarted everywhere would hide what a single restart changes)
 	if nblocks <= 40 || tier == "thorough" {
@@ -1092,6 +1374,11 @@ func c01RunCase(co *caseOut, in c01Input, gen func(c *c05Chain, run *c05Runner) 
 	tag, nontrivial := c01Tag(in.Ops, run.blocks)
 	co.add("history", tag, nontrivial, in, map[string]any{"heights": len(blocks), "replicas": len(in.Replicas), "tip": obs[len(obs)-1]}, c01CoqCase(c, in, run.blocks, obs))
 	return nil
+}
+
+func in01Faun(c *c05Chain) bool {
+	_, ok := c.bc.GetConfig().Hardforks[config.HFFaun.String()]
+	return ok
 }
 
 // c01Tag: non-trivial = the committee changed at least once and a Policy block/unblock succeeded.
